@@ -9,6 +9,8 @@ Per-method contracts from the real source, each checked against the documented o
   delete / touch / flush_all     DELETED / TOUCHED / OK -> True, anything else that is not an error line -> False; noreply -> True
   incr / decr                    the new value as int, NOT_FOUND -> None, noreply -> None (default False)
   delete_many                    True
+  set_many                       one set batch with the caller's dict; the returned list is exactly the keys whose own reply was not
+                                 STORED, in the order of the dict (A-filter); [] with noreply
   get_many / gets_many           {} for an empty collection; otherwise the map built by _fetch_cmd, returned as it is: every
                                  item of the reply under the caller's key with its value (and cas token), nothing else
   get / gat, gets / gats         hit -> the fetched value / (value, cas token bytes); miss -> default / (default, cas_default);
@@ -22,7 +24,7 @@ from . import clientmodel as cm
 TRUSTED = ["server reply format (DESIGN 4.4)", "exchange-function contracts (_misc_cmd, _store_cmd, _fetch_cmd), each verified in this run or in C01/C04",
            "meta-lemma C05.simulation (history induction over per-call facts)"]
 ASSUMPTIONS = ["a faithful memcached: storage semantics, expiry and cas versions are the server's"]
-NOT_COVERED = ["set_many's list of failed keys (comprehension with a filter not mechanised); get_many/gets_many of HashClient",
+NOT_COVERED = ["get_many/gets_many/set_many results of HashClient (merge of per-server answers: C12)", "A-dict-order: that the result dict of _store_cmd enumerates its keys in insertion order is an axiom about dict, not proved",
                "stats, version, cache_memlimit, raw_command results"]
 BUDGET = {"quick": 40, "thorough": 180}
 FILTER_BY_PROPERTY = True
@@ -37,6 +39,7 @@ def build(E, tier):
     cm.verify_public_store(E)
     cm.verify_public_fetch(E)
     cm.verify_public_fetch_many(E)
+    cm.verify_set_many(E)
     cm.verify_fetch_many(E, names=("get", "gets"), iter_kinds=("re-iterable",))
     tables(E)
 
